@@ -25,7 +25,7 @@ OP_CLASS = {"src": "defs", "sig": "defs", "srcs": "defs", "sigs": "defs", "sigq"
 def min_def(dt):
     """smallest definition parameters the writer accepts for this type: (spd, sdf, eps, sumdf)"""
     w = DT_BITS[dt]
-    mult = 256 // w
+    mult = 32 if w == 24 else 256 // w
     sdf = ((10 + mult - 1) // mult) * mult
     return (sdf, sdf, 10, 10)
 
@@ -44,6 +44,8 @@ def compare_case(script, impl, model):
     ops = script.split(";")
     io = impl.split(";")
     mo = model.split(";")
+    if model.startswith("PROCFAIL") or (model and len(mo) < len(ops) and not model.startswith("PROCFAIL") and "?" not in model and False):
+        return [dict(op_index=0, op=ops[0], cls="fault", impl=impl[:100], model=model[:200], why="the MODEL process failed on this script (harness problem, not an implementation result): " + model[:120])]
     fault = None
     if io and io[-1].startswith("FAULT"):
         fault = io[-1]
@@ -164,12 +166,14 @@ def shrink(script, still_fails, max_steps=200):
 
 
 def run_prog_property(ctx, prop_files, gen_case, classes, n_quick, n_thorough, rule, classify=None, variant="plain",
-                      exact=False, key_of=None, checker=None, note="", level="proof", extra_check=None, timeout=40):
+                      exact=False, key_of=None, checker=None, note="", level="proof", extra_check=None, timeout=40, pre_run=None, variants=None):
     """Generic driver: build, generate cases, run implementation + model, compare the ops of `classes`.
     gen_case(rng, tier) -> (script, meta dict).  classify(script, meta, mism) -> signature or None."""
     import os
     prop_files = [f for f in prop_files if os.path.exists(os.path.join(vlib.COQ, f))]
-    vlib.build(ctx, prop_files, variants=(variant,))
+    vlib.build(ctx, prop_files, variants=tuple(variants) if variants else (variant,))
+    if pre_run:
+        pre_run(ctx)
     n = n_quick if ctx.tier == "quick" else n_thorough
     corpus = load_corpus(ctx.prop)
     cases = [(s, {"corpus": True}) for s in corpus] + [gen_case(ctx.rng, ctx.tier) for _ in range(n)]
